@@ -140,6 +140,7 @@ func init() {
 		userNumCount: 3,
 		isPrerelease: false,
 		str:          "0.0.0dev0",
+		minSentinel:  true,
 	}
 	pypiMinVersion.num = pypiMinVersion.buf[:3]
 	pypiMinVersion.ext = &pep440Extension{
